@@ -55,6 +55,88 @@ def attrs_read(e: ast.expr, src: str, with_container: bool = False):
     return out
 
 
+def _fold_int(ctx, fi, e, depth=0):
+    """integer value of a constant expression (2 ** 63, -2 ** 63, 2 ** 63 - 1, a module-level constant), or None"""
+    if depth > 5:
+        return None
+    if isinstance(e, ast.Constant) and isinstance(e.value, int) and not isinstance(e.value, bool):
+        return e.value
+    if isinstance(e, ast.UnaryOp) and isinstance(e.op, ast.USub):
+        v = _fold_int(ctx, fi, e.operand, depth + 1)
+        return None if v is None else -v
+    if isinstance(e, ast.BinOp) and isinstance(e.op, (ast.Pow, ast.Add, ast.Sub, ast.Mult, ast.LShift)):
+        a, b = _fold_int(ctx, fi, e.left, depth + 1), _fold_int(ctx, fi, e.right, depth + 1)
+        if a is None or b is None or (isinstance(e.op, (ast.Pow, ast.LShift)) and not 0 <= b <= 128):
+            return None
+        return {ast.Pow: lambda: a ** b, ast.Add: lambda: a + b, ast.Sub: lambda: a - b, ast.Mult: lambda: a * b, ast.LShift: lambda: a << b}[type(e.op)]()
+    if isinstance(e, ast.Name) and not ctx.types.local_bindings(fi, e.id):
+        r = ctx.prog.resolve_name_in_module(fi.module, e.id)
+        if r and r[0] == "const":
+            return _fold_int(ctx, r[1], r[1].consts.get(r[2]), depth + 1) if hasattr(r[1], "consts") and r[1].consts.get(r[2]) is not None and False else \
+                _fold_int_mod(ctx, r[1], r[1].consts.get(r[2]), depth + 1)
+    return None
+
+
+def _fold_int_mod(ctx, mod, e, depth):
+    class _F:          # a module stands in for the function when a constant refers to another constant
+        module = mod
+    fake = _F()
+    if e is None:
+        return None
+    if isinstance(e, ast.Name):
+        r = ctx.prog.resolve_name_in_module(mod, e.id)
+        return _fold_int_mod(ctx, r[1], r[1].consts.get(r[2]), depth + 1) if r and r[0] == "const" and depth < 5 else None
+    if isinstance(e, ast.Constant) and isinstance(e.value, int) and not isinstance(e.value, bool):
+        return e.value
+    if isinstance(e, ast.UnaryOp) and isinstance(e.op, ast.USub):
+        v = _fold_int_mod(ctx, mod, e.operand, depth + 1)
+        return None if v is None else -v
+    if isinstance(e, ast.BinOp) and isinstance(e.op, (ast.Pow, ast.Add, ast.Sub, ast.Mult, ast.LShift)):
+        a, b = _fold_int_mod(ctx, mod, e.left, depth + 1), _fold_int_mod(ctx, mod, e.right, depth + 1)
+        if a is None or b is None or (isinstance(e.op, (ast.Pow, ast.LShift)) and not 0 <= b <= 128):
+            return None
+        return {ast.Pow: lambda: a ** b, ast.Add: lambda: a + b, ast.Sub: lambda: a - b, ast.Mult: lambda: a * b, ast.LShift: lambda: a << b}[type(e.op)]()
+    return None
+
+
+def _int64_test(ctx, fi, conds):
+    """True: the conditions confine the value to the signed 64 bit range; False: they test the size of the value but admit
+    integers outside of it; None: no size test recognised (the caller falls back to its structural reading)."""
+    lo, hi = None, None
+    seen = False
+    for c_ in conds:
+        for n in ast.walk(c_):
+            if not isinstance(n, ast.Compare):
+                continue
+            terms = [n.left] + list(n.comparators)
+            # value.bit_length() < N / <= N
+            if len(n.ops) == 1 and isinstance(n.left, ast.Call) and isinstance(n.left.func, ast.Attribute) and n.left.func.attr == "bit_length":
+                b = _fold_int(ctx, fi, n.comparators[0])
+                if b is not None and isinstance(n.ops[0], (ast.Lt, ast.LtE)):
+                    seen = True
+                    bits = b - 1 if isinstance(n.ops[0], ast.Lt) else b
+                    lo, hi = -(2 ** bits) + 1, 2 ** bits - 1
+                continue
+            vals = [_fold_int(ctx, fi, x) for x in terms]
+            for i, op in enumerate(n.ops):
+                a, b = vals[i], vals[i + 1]
+                if a is not None and b is None and isinstance(op, (ast.Lt, ast.LtE)):       # a <(=) value
+                    seen = True
+                    lo = max(lo, a + (1 if isinstance(op, ast.Lt) else 0)) if lo is not None else a + (1 if isinstance(op, ast.Lt) else 0)
+                elif a is None and b is not None and isinstance(op, (ast.Lt, ast.LtE)):     # value <(=) b
+                    seen = True
+                    hi = min(hi, b - (1 if isinstance(op, ast.Lt) else 0)) if hi is not None else b - (1 if isinstance(op, ast.Lt) else 0)
+                elif a is not None and b is None and isinstance(op, (ast.Gt, ast.GtE)):     # a >(=) value
+                    seen = True
+                    hi = min(hi, a - (1 if isinstance(op, ast.Gt) else 0)) if hi is not None else a - (1 if isinstance(op, ast.Gt) else 0)
+                elif a is None and b is not None and isinstance(op, (ast.Gt, ast.GtE)):     # value >(=) b
+                    seen = True
+                    lo = max(lo, b + (1 if isinstance(op, ast.Gt) else 0)) if lo is not None else b + (1 if isinstance(op, ast.Gt) else 0)
+    if not seen:
+        return None
+    return lo is not None and hi is not None and lo >= -2 ** 63 and hi <= 2 ** 63 - 1
+
+
 def _inline_locals(t, fi, e, depth=0):
     """e with every local that is assigned exactly once (a plain `name = <expr>`) replaced by that expression: a comprehension
     or an alias given a name first reads like the expression written in place"""
@@ -300,6 +382,11 @@ def run(ctx: Ctx, tier: str) -> Result:
                     res.fail(Finding("C08.TYPES", cv.qname, c, cv.loc(c), "`%s` sends text as it is: an attribute (or resource) value holding a character UTF-8 cannot encode - a lone surrogate - "
                                      "makes the conversion of the whole snapshot, and of every poll request, fail" % norm(c)[:60]))
             if k.arg == "int_value":
+                exact = _int64_test(ctx, cv, [c_ for c_, pol in paths.conditions(p, c, cv) if pol])
+                if exact is False:
+                    res.fail(Finding("C08.TYPES", cv.qname, c, cv.loc(c), "the test in front of `%s` lets integers through that do not fit the signed 64 bit field (it must hold "
+                                     "exactly for -2**63 <= value <= 2**63 - 1 or a narrower range): such a value makes the conversion of the whole snapshot / poll request fail" % norm(c)[:50]))
+                    continue
                 rng = [c_ for c_, pol in paths.conditions(p, c, cv) if pol and any(
                     (isinstance(n_, ast.BinOp) and isinstance(n_.op, ast.Pow) and norm(n_) in ("2 ** 63", "2 ** 64")) or
                     (isinstance(n_, ast.Constant) and isinstance(n_.value, int) and abs(n_.value) in (2 ** 63, 2 ** 63 - 1)) or
